@@ -45,7 +45,7 @@ def bounds(tier, seed):
 
 
 SHAPES = [s for d in (1, 2, 3) for s in itertools.product((1, 2, 3), repeat=d)]
-EDGE_ALPHA = [-1.0, 0.0, 0.25, 1.0, 3.0, 32.0]
+EDGE_ALPHA = [-3.0, -1.0, 0.0, 0.25, 1.0, 3.0, 32.0]
 DET_ALPHA2 = [-2, -1, 0, 1, 2]
 DET_ALPHA3 = {"quick": [-1, 0, 2], "thorough": [-2, -1, 0, 1]}
 
